@@ -1062,8 +1062,55 @@ func (f *FuncCFG) expand(depth int, onStack map[*types.Func]bool) {
 			// (nil) error continues on the failure (success) branch only. Without this, the expanded
 			// graph would contain the infeasible path "helper failed, caller saw no error".
 			var tailOK, tailFail *cfg.Block
+			boolCorr := false // tailOK = the result is true, tailFail = the result is false
 			if len(tail.Nodes) == 2 && len(tail.Succs) == 2 {
 				if cond, isExpr := tail.Nodes[1].(ast.Expr); isExpr {
+					// boolean correlation: `v := helper(...)` followed at once by `if v` / `if !v`
+					{
+						c, neg := ast.Unparen(cond), false
+						for {
+							if u, ok := c.(*ast.UnaryExpr); ok && u.Op == token.NOT {
+								neg, c = !neg, ast.Unparen(u.X)
+								continue
+							}
+							break
+						}
+						if as, isAs := tail.Nodes[0].(*ast.AssignStmt); isAs && len(as.Lhs) == 1 {
+							if v := objOfIdent(f.Info, as.Lhs[0]); v != nil && objOfIdentRaw(f.Info, c) == v {
+								if bt, ok := v.Type().Underlying().(*types.Basic); ok && bt.Kind() == types.Bool {
+									sink := &cfg.Block{Kind: cfg.KindUnreachable, Live: false}
+									trueSucc, falseSucc := tail.Succs[0], tail.Succs[1]
+									if neg {
+										trueSucc, falseSucc = tail.Succs[1], tail.Succs[0]
+									}
+									mk := func(val bool) *cfg.Block {
+										nb := &cfg.Block{Nodes: tail.Nodes, Kind: tail.Kind, Live: true, Stmt: tail.Stmt}
+										// successor order is that of the condition as written
+										t, fl := sink, sink
+										switch {
+										case val && !neg:
+											t = trueSucc
+										case val && neg:
+											fl = trueSucc
+										case !val && !neg:
+											fl = falseSucc
+										default:
+											t = falseSucc
+										}
+										nb.Succs = []*cfg.Block{t, fl}
+										f.expandedHead[nb] = true
+										f.regionOf[nb] = f.regionOf[b]
+										return nb
+									}
+									tailOK, tailFail = mk(true), mk(false)
+									boolCorr = true
+									f.G.Blocks = append(f.G.Blocks, tailOK, tailFail, sink)
+								}
+							}
+						}
+					}
+				}
+				if cond, isExpr := tail.Nodes[1].(ast.Expr); isExpr && !boolCorr {
 					if x, nonNilOnTrue, isTest := nilTest(f.Info, cond); isTest {
 						if as, isAs := tail.Nodes[0].(*ast.AssignStmt); isAs && len(as.Lhs) >= 1 && objOfIdent(f.Info, as.Lhs[len(as.Lhs)-1]) != nil && objOfIdent(f.Info, as.Lhs[len(as.Lhs)-1]) == objOfIdent(f.Info, x) {
 							sink := &cfg.Block{Kind: cfg.KindUnreachable, Live: false}
@@ -1100,6 +1147,19 @@ func (f *FuncCFG) expand(depth int, onStack map[*types.Func]bool) {
 					return tail
 				}
 				last := rs.Results[len(rs.Results)-1]
+				if boolCorr {
+					if len(rs.Results) == 1 {
+						if id, ok := ast.Unparen(last).(*ast.Ident); ok {
+							switch id.Name {
+							case "true":
+								return tailOK
+							case "false":
+								return tailFail
+							}
+						}
+					}
+					return tail
+				}
 				if !types.Identical(f.Info.TypeOf(last), errorType) && !isNil(f.Info, last) {
 					return tail
 				}
@@ -1271,4 +1331,24 @@ func (f *FuncCFG) FindOwn(pred func(ast.Node) bool) []Point {
 		}
 	}
 	return out
+}
+
+// callableBody returns the body of a function value written as a function literal, a named
+// function or a method value of the analysed packages (nil otherwise).
+func callableBody(p *Prog, info *types.Info, e ast.Expr) (*ast.BlockStmt, token.Pos) {
+	switch x := ast.Unparen(e).(type) {
+	case *ast.FuncLit:
+		return x.Body, x.Pos()
+	case *ast.Ident, *ast.SelectorExpr:
+		var fn *types.Func
+		if id := selIdent(x.(ast.Expr)); id != nil {
+			fn, _ = info.Uses[id].(*types.Func)
+		}
+		if fn != nil {
+			if fd := p.decls().byFunc[fn.Origin()]; fd != nil {
+				return fd.Body, fd.Pos()
+			}
+		}
+	}
+	return nil, token.NoPos
 }
